@@ -9,8 +9,9 @@ PROP = {
             "A case is non-trivial when all its lanes (source lanes, argument lanes and, for Vec3A, the hidden lane) are pairwise distinct in bits, so that every wrong "
             "permutation is visible; distinct = distinct hash of (type, backend, lane bits). Classes record NaN payloads, signalling NaNs, signed zeros, MIN/MAX and the hidden-lane class.",
     "builds": {
-        "quick": [B("stable"), B("nightly", 0.25, False)],
-        "thorough": [B("stable"), B("nightly", 0.5, False)],
+        # the +fma,+avx2 build also enables SSE3 / SSSE3 / SSE4.x / AVX: a cfg(target_feature) fast path is only compiled there
+        "quick": [B("stable"), B("fma", 0.25), B("nightly", 0.25, False)],
+        "thorough": [B("stable"), B("fma", 0.5), B("native", 0.25), B("nightly", 0.5, False)],
     },
     "volume": {"quick": 2},
     "technique": "property-based testing: the complete table of swizzle method names is generated combinatorially (a missing method or type is a compile error), every method is "
